@@ -23,7 +23,7 @@ from .tokdiff import TokOracle, help_names, assume_not_named, run_tok_job, finis
 from .corpus import CORPUS
 
 PROP = "C07"
-GRAMMARS = ["a1", "a2", "a3", "a4"]
+GRAMMARS = ["a1", "a2", "a3", "a4", "a5"]
 
 F_A = G.Named("req_flag", "a", ["alpha"])
 F_B = G.Named("arg", "b", ["beta"], arity="req")
@@ -40,8 +40,9 @@ def alt_val(name, *vals):
 F3 = [G.Named("req_flag", "a", ["alpha"]), G.Named("req_flag", "b", ["beta"]), G.Named("req_flag", "c", ["gamma"])]
 
 
-def spec_flag3(ex, env, items):
-    """a4: repeated choice between three flags: one value per occurrence, in command line order"""
+def spec_flag3(ex, env, items, cmd_first=False):
+    """a4: repeated choice between three flags: one value per occurrence, in command line order
+    (a5: the first alternative is the adjacent command `go`, a bare word, instead of the flag -a)"""
     n = len(items)
     vals = []
     sw = 0
@@ -50,10 +51,17 @@ def spec_flag3(ex, env, items):
             if i + 1 < n:
                 return ("fail", "positional data", None)
             continue
+        if cmd_first and it.kind == "word":
+            if ex.branch(it.val == env.intern("go"), "c07-go"):
+                vals.append(Adt("Flag3", 0, ()))
+                continue
+            return ("fail", "stray word", None)
         if it.kind not in ("short", "long"):
             return ("fail", "unclaimed item", None)
         hit = None
         for k, f in enumerate(F3):
+            if cmd_first and k == 0:
+                continue
             if G.name_match(ex, env, f, it):
                 hit = k
                 break
@@ -70,6 +78,8 @@ def spec_flag3(ex, env, items):
         return ("fail", "unknown name", None)
     if sw > 1:
         return ("fail", "switch twice", None)
+    if cmd_first:
+        return ("ok", (sw == 1, Seq(tuple(vals))))  # a5 declares the switch first (commands go last)
     return ("ok", (Seq(tuple(vals)), sw == 1))
 
 
@@ -162,7 +172,7 @@ class Oracle(TokOracle):
     def judge(self, ex, g, words, cls, payload, state, report, out):
         items = G.items_of_words(words)
         env = spec_env(ex)
-        mode = {"a1": "bare", "a2": "optional", "a3": "many", "a4": "flag3"}[g.name]
+        mode = {"a1": "bare", "a2": "optional", "a3": "many", "a4": "flag3", "a5": "flag3c"}[g.name]
 
         def leaf(ex2, sres):
             out["spec_leaves"] += 1
@@ -182,7 +192,7 @@ class Oracle(TokOracle):
                 return
             if sres[1] == "conflict":
                 out["conflicts"] = out.get("conflicts", 0) + 1
-        ex.sub_explore(lambda e: spec_flag3(e, env, items) if mode == "flag3" else spec_alt(e, env, mode, items), leaf)
+        ex.sub_explore(lambda e: spec_flag3(e, env, items, mode == "flag3c") if mode in ("flag3", "flag3c") else spec_alt(e, env, mode, items), leaf)
 
 
 def make_jobs(tier, seed, build):
